@@ -388,10 +388,10 @@ struct WkdRun {
         // one time in six the destination is a copy of the source key's struct - `fresh = old;` - so the two objects share one slot array: the call
         // re-randomises the elements where they are (the old key object is spent afterwards)
         bool shallow = further && pl > 0 && ((op.arg(0) >> 3) % 6) == 0 && pk->barr.p && R.jv_wk_sk_barray(pk->sk) == (void*) pk->barr.p;
-        if (shallow) { k = KeyM(); k.sk.alloc(R.sz(JV_SZ_WK_SK)); memcpy(k.sk.p, pk->sk.p, k.sk.n); k.cap = k.cap_alloc = pk->cap; env.count("fault:destination_key_is_a_struct_copy_sharing_the_source_slot_array"); }
+        if (shallow) { k = KeyM(); k.sk.alloc(R.sz(JV_SZ_WK_SK)); memcpy(k.sk.p, pk->sk.p, k.sk.n); k.cap = pk->cap; k.cap_alloc = pk->cap_alloc; env.count("fault:destination_key_is_a_struct_copy_sharing_the_source_slot_array"); }
         std::vector<std::string> sf = trailing_faults(op, 0);
         call_begin((uint64_t) op.arg(0), &sf); R.jv_wk_resamplekey(view, k.sk, sys.params, pre, pk->sk, further, jv_rand_cb);
-        if (shallow) pk->tainted = true;
+        if (shallow) { pk->tainted = true; k.barr = std::move(pk->barr); }   // the array now belongs to the new key (the spent object still points at it; the harness keeps it alive through the new owner)
         k.rho = Bn::addmod(pk->rho, drawn_scalar("resamplekey"), K().r);
         k.pat = pk->pat; if (!further) for (auto& s : k.pat) if (s.st == ST_FREE) s.st = ST_HIDDEN;
         std::vector<Slot> ppat = pk->pat;
